@@ -157,7 +157,7 @@ def split_hint(text):
     for part in re.split(r"(?<=;)\s*", text.strip()):
         if not part.strip():
             continue
-        (raw if part.strip().startswith("broadcast use") else pr).append(part.strip())
+        (raw if (part.strip().startswith("broadcast use") or part.strip().startswith("let ghost")) else pr).append(part.strip())
     out = ""
     if raw:
         out += " " + " ".join(raw) + " "
@@ -467,8 +467,9 @@ class Unit:
                         sh = split_hint(start_hint) if start_hint.strip() else ""
                         eh = f" proof {{ {end_hint} }}" if end_hint.strip() else ""
                         vc = f" proof {{ {vac} }}" if vac else ""
-                        af = f" proof {{ {after} }}" if after.strip() else ""
-                        return (f"{{ let mut it__{k} = {itx}; loop\n{inv} {{{vc}{sh} match it__{k}.next() {{ Some({pat}) => {{{bodytxt}{eh} }}, None => break, }} }}{af} }}")
+                        af = split_hint(after) if after.strip() else ""
+                        # statement position: the iterator binding and the hints after the loop stay in the enclosing scope
+                        return (f"let mut it__{k} = {itx}; loop\n{inv} {{{vc}{sh} match it__{k}.next() {{ Some({pat}) => {{{bodytxt}{eh} }}, None => break, }} }};{af}")
                     ed.fn = f
                     edits.append(ed)
                     self.log("R4", relfile, src, ls_, "`for` -> loop { match it.next() }")
@@ -481,7 +482,7 @@ class Unit:
                     if end_hint.strip():
                         edits.append(Edit(lbe - 1, lbe - 1, lambda r, end_hint=end_hint: f" proof {{ {end_hint} }} "))
                     if after.strip():
-                        edits.append(Edit(le_, le_, lambda r, after=after: f"; proof {{ {after} }} "))
+                        edits.append(Edit(le_, le_, lambda r, after=after: ";" + split_hint(after)))
             # entry
             entry = "".join(parts.get("entry", []))
             vac = ""
@@ -497,22 +498,47 @@ class Unit:
                     txt += split_hint(entry)
                 edits.append(Edit(bs + 1, bs + 1, lambda r, txt=txt: txt, prio=-1))
             # exits
+            # exits: `return` expressions and the leaf tail expressions (the value-producing ends of the body's
+            # match / if / block structure), in source order
             exits = [x["span"] for x in it["returns"] if not x["in_closure"]]
-            if it["tail"]:
-                exits.append(it["tail"])
+            exits += [x for x in it.get("leaf_tails", []) if x not in exits]
             exits.sort()
             for m_, sp_ in enumerate(exits):
                 hint = "".join(parts.get(("exit", m_), []))
                 if not hint.strip():
                     continue
                 ed = Edit(sp_[0], sp_[1], None)
-                ed.fn = (lambda r, ed=ed, sp_=sp_, hint=hint: "{ proof { " + hint + " } " + r.render_inside(ed, sp_[0], sp_[1]) + " }")
+                if "r__" in hint:
+                    # the hint talks about the value being returned: bind it first
+                    ed.fn = (lambda r, ed=ed, sp_=sp_, hint=hint: "{ let r__ = " + r.render_inside(ed, sp_[0], sp_[1]) + "; proof { " + hint + " } r__ }")
+                else:
+                    ed.fn = (lambda r, ed=ed, sp_=sp_, hint=hint: "{ proof { " + hint + " } " + r.render_inside(ed, sp_[0], sp_[1]) + " }")
                 edits.append(ed)
+            # R17: nested items are hoisted (emitted through their own directive) and removed from the body
+            for ns, ne in it.get("nested_items", []):
+                edits.append(Edit(ns, ne, lambda r: ""))
+                self.log("R17", relfile, src, ns, f"{path}: nested item hoisted to module level")
+            # R16: closure headers annotated with types and a contract
+            for ci, cl in enumerate(it.get("closures", [])):
+                hdr = "".join(parts.get(("closure", ci), []))
+                if not hdr.strip():
+                    continue
+                cs, ce = cl["span"]
+                cbs, cbe = cl["body"]
+                ed = Edit(cs, ce, None)
+
+                def fcl(r, ed=ed, cbs=cbs, cbe=cbe, hdr=hdr, blk=cl["body_is_block"]):
+                    b = r.render_inside(ed, cbs, cbe)
+                    return hdr.strip() + " " + (b if blk else "{ " + b + " }")
+                ed.fn = fcl
+                edits.append(ed)
+                self.log("R16", relfile, src, cs, f"{path}: closure {ci} given a typed header and a contract")
             for key in parts:
                 if isinstance(key, tuple):
                     kind, k = key
                     lim = {"loop": len(it["loops"]), "loopstart": len(it["loops"]), "loopend": len(it["loops"]),
-                           "afterloop": len(it["loops"]), "exit": len(exits), "tryexit": len(it["tries"])}[kind]
+                           "afterloop": len(it["loops"]), "exit": len(exits), "tryexit": len(it["tries"]),
+                           "closure": len(it.get("closures", []))}[kind]
                     if k >= lim:
                         raise AnchorLost(f"{where}: template refers to {kind} {k} but the function has only {lim}")
 
@@ -624,7 +650,7 @@ class Unit:
                 parts = {}
                 while i < n:
                     st2 = lines[i].strip()
-                    m = re.match(r"//@(\||loop\s+\d+\||entry\||exit\s+\d+\||tryexit\s+\d+\||loopstart\s+\d+\||loopend\s+\d+\||afterloop\s+\d+\|)(.*)$", st2)
+                    m = re.match(r"//@(\||loop\s+\d+\||entry\||exit\s+\d+\||tryexit\s+\d+\||loopstart\s+\d+\||loopend\s+\d+\||afterloop\s+\d+\||closure\s+\d+\|)(.*)$", st2)
                     if not m:
                         break
                     kind = m.group(1)[:-1].strip()
